@@ -96,4 +96,12 @@ VARIANTS = [
     V("classification-score-branches-crossed", "src/soundevent/evaluation/metrics.py", "    if y_true is None:\n        return max(0.0, 1 - y_score.sum())\n\n    return y_score[y_true]\n\n\ndef true_class", "    if y_true is not None:\n        return max(0.0, 1 - y_score.sum())\n\n    return y_score[y_true]\n\n\ndef true_class", "R08.5"),
     V("validator-source-test-crossed(C04)", "src/soundevent/data/clip_evaluations.py", "if match.source is not None", "if match.source is None", "C04/R04.2"),
     V("N-mean-single-exit", D, "    if not valid_scores:\n        return 0.0\n\n    score = float(np.mean(valid_scores))\n    if np.isnan(score):\n        return 0.0\n\n    return score", "    if len(valid_scores) == 0:\n        return 0.0\n    return float(np.mean(valid_scores))", None),
+    V("N-mean-written-out-at-its-call-sites", D, "            score=_mean([m.score for m in matches]),",
+      "            score=(\n                float(np.mean([m.score for m in matches if m.score is not None]))\n                if [m.score for m in matches if m.score is not None]\n                else 0.0\n            ),", None,
+      also=((D, "        score=_mean([c.score for c in evaluated_clips]),", "        score=(\n            float(np.mean([c.score for c in evaluated_clips if c.score is not None]))\n            if any(c.score is not None for c in evaluated_clips)\n            else 0.0\n        ),"),
+            (D, 'def _mean(\n    scores: Sequence[Optional[float]],\n) -> float:\n    valid_scores = [score for score in scores if score is not None]\n\n    if not valid_scores:\n        return 0.0\n\n    score = float(np.mean(valid_scores))\n    if np.isnan(score):\n        return 0.0\n\n    return score\n', ""))),
+    V("mean-written-out-over-first-match-only", D, "            score=_mean([m.score for m in matches]),",
+      "            score=(\n                float(np.mean([m.score for m in matches[:1] if m.score is not None]))\n                if [m.score for m in matches[:1] if m.score is not None]\n                else 0.0\n            ),", "R08.6"),
+    V("N-evaluate-clips-written-out-in-the-task", D, '    (\n        evaluated_clips,\n        true_classes,\n        predicted_classes_scores,\n    ) = _evaluate_clips(clip_predictions, clip_annotations, encoder)\n', '    evaluated_clips = []\n    true_classes = []\n    scores_rows = []\n    for annotations, predictions in iterate_over_valid_clips(\n        clip_predictions=clip_predictions,\n        clip_annotations=clip_annotations,\n    ):\n        true_class, predicted_classes, evaluated_clip = evaluate_clip(\n            clip_annotations=annotations,\n            clip_predictions=predictions,\n            encoder=encoder,\n        )\n        true_classes.extend(true_class)\n        scores_rows.extend(predicted_classes)\n        evaluated_clips.append(evaluated_clip)\n    predicted_classes_scores = np.array(scores_rows)\n', None, also=((D, 'def _evaluate_clips(\n    clip_predictions: Sequence[data.ClipPrediction],\n    clip_annotations: Sequence[data.ClipAnnotation],\n    encoder: Encoder,\n):\n    """Evaluate all examples in the given model run and evaluation set."""\n    evaluated_clips = []\n    true_classes = []\n    predicted_classes_scores = []\n\n    for annotations, predictions in iterate_over_valid_clips(\n        clip_predictions=clip_predictions,\n        clip_annotations=clip_annotations,\n    ):\n        true_class, predicted_classes, evaluated_clip = evaluate_clip(\n            clip_annotations=annotations,\n            clip_predictions=predictions,\n            encoder=encoder,\n        )\n\n        true_classes.extend(true_class)\n        predicted_classes_scores.extend(predicted_classes)\n        evaluated_clips.append(evaluated_clip)\n\n    return evaluated_clips, true_classes, np.array(predicted_classes_scores)\n\n\n', ""),)),
+    V("evaluate-clips-written-out-drops-empty-clips", D, '    (\n        evaluated_clips,\n        true_classes,\n        predicted_classes_scores,\n    ) = _evaluate_clips(clip_predictions, clip_annotations, encoder)\n', '    evaluated_clips = []\n    true_classes = []\n    scores_rows = []\n    for annotations, predictions in iterate_over_valid_clips(\n        clip_predictions=clip_predictions,\n        clip_annotations=clip_annotations,\n    ):\n        true_class, predicted_classes, evaluated_clip = evaluate_clip(\n            clip_annotations=annotations,\n            clip_predictions=predictions,\n            encoder=encoder,\n        )\n        true_classes.extend(true_class)\n        scores_rows.extend(predicted_classes)\n        if evaluated_clip.matches:\n            evaluated_clips.append(evaluated_clip)\n    predicted_classes_scores = np.array(scores_rows)\n', "R08.1", also=((D, 'def _evaluate_clips(\n    clip_predictions: Sequence[data.ClipPrediction],\n    clip_annotations: Sequence[data.ClipAnnotation],\n    encoder: Encoder,\n):\n    """Evaluate all examples in the given model run and evaluation set."""\n    evaluated_clips = []\n    true_classes = []\n    predicted_classes_scores = []\n\n    for annotations, predictions in iterate_over_valid_clips(\n        clip_predictions=clip_predictions,\n        clip_annotations=clip_annotations,\n    ):\n        true_class, predicted_classes, evaluated_clip = evaluate_clip(\n            clip_annotations=annotations,\n            clip_predictions=predictions,\n            encoder=encoder,\n        )\n\n        true_classes.extend(true_class)\n        predicted_classes_scores.extend(predicted_classes)\n        evaluated_clips.append(evaluated_clip)\n\n    return evaluated_clips, true_classes, np.array(predicted_classes_scores)\n\n\n', ""),)),
 ]
